@@ -198,6 +198,10 @@ type caseRun struct {
 	asyncErrs  int
 	lt         *lifetime
 	mergeSeg   map[uint64]bool // segment ids whose Persist is a merge's (for the fault injector's categories)
+
+	// closerace (closerace.go)
+	gate       *persistGate // holds the persister inside one Persist of its own job
+	forceImage bool         // every record keeps its crash image while set
 }
 
 var current *caseRun
@@ -295,7 +299,7 @@ func (c *caseRun) wantImage(op string) bool {
 	if !c.mode.Images {
 		return false
 	}
-	if c.mode.Recover {
+	if c.mode.Recover || c.forceImage {
 		return true
 	}
 	if c.tier == "thorough" {
@@ -568,6 +572,7 @@ func (d *recDir) Persist(kind string, id uint64, w index.WriterTo, closeCh chan 
 	}
 	c.mu.Unlock()
 	c.jitter()
+	c.gateWait(kind, isMerge)
 	err := werr
 	if err == nil {
 		err = d.inner.Persist(kind, id, bytesWriterTo(content), closeCh)
@@ -1191,6 +1196,16 @@ func (h *H) Gen(r *hlib.Rand, tier string, scale int, emit func(string)) {
 			ins("ropen", 1)
 			ins("second", 1)
 		}
+		if !unsafe {
+			// Close() while one batch is inside the persister and 1–3 more are queued behind it
+			k := r.Range(2, 4)
+			cr := "closerace " + []string{"seg", "seg", "snp"}[r.Intn(3)]
+			for i := 0; i < k; i++ {
+				cr += " " + mk()
+			}
+			ins(cr, 2)
+			ops = append(ops, "b "+mk())
+		}
 		// readers: each open reader is closed later with probability 2/3, the rest at the end of the case
 		nrd := 0
 		var openRd []int
@@ -1204,6 +1219,9 @@ func (h *H) Gen(r *hlib.Rand, tier string, scale int, emit func(string)) {
 				openRd = nil
 				emit(op)
 			default:
+				if strings.HasPrefix(op, "closerace ") {
+					openRd = nil
+				}
 				emit(op)
 			}
 			if len(openRd) > 0 && r.Chance(25) {
@@ -1334,6 +1352,18 @@ func (h *H) Exec(line string, out func(string, string), st *hlib.Stats, work str
 		_ = after
 		c.recordLocked("second " + res)
 		c.mu.Unlock()
+	case "closerace":
+		// closerace seg|snp spec spec [spec…]
+		kind := index.ItemKindSegment
+		if len(f) > 1 && f[1] == "snp" {
+			kind = index.ItemKindSnapshot
+		}
+		var sps []batchSpec
+		for _, s := range f[2:] {
+			sps = append(sps, parseSpec(s))
+		}
+		st.Count("op:closerace")
+		c.closeRace(kind, sps, st)
 	case "reopen":
 		for id, r := range c.readers {
 			c.mu.Lock()
